@@ -136,7 +136,7 @@ impl Property for C06 {
     }
     fn strategy(_tier: Tier) -> BoxedStrategy<Spec> {
         let outer = valid_world(Cfg { max_steps: 2, max_owners: 1, ..Cfg::basic() });
-        let with_sub = valid_world(Cfg { min_steps: 1, max_steps: 2, max_owners: 1, sub_depth: 1, ..Cfg::basic() });
+        let with_sub = valid_world(Cfg { min_steps: 1, max_steps: 2, max_owners: 1, sub_depth: 1, big: true, ..Cfg::basic() });
         (
             prop_oneof![(outer, Just(false)), (with_sub, Just(true))],
             delta_strategy(),
@@ -166,14 +166,17 @@ impl Property for C06 {
         // far-future expiry elsewhere; the layout under test gets the whole second that is signed
         let far = 253_402_300_799i64;
         w.layout.expires = far;
-        let mut sub_index = None;
+        let mut sub_indices = vec![];
         for (i, f) in w.links.iter_mut().enumerate() {
             if let Body::Sub { world, .. } = &mut f.body {
                 world.layout.expires = far;
-                if sub_index.is_none() {
-                    sub_index = Some(i);
-                }
+                sub_indices.push(i);
             }
+        }
+        // which delegated step gets the expiry under test: any of them (layouts may have a dozen steps)
+        let sub_index = if sub_indices.is_empty() { None } else { Some(sub_indices[spec.zero_offset_style as usize % sub_indices.len()]) };
+        if sub_indices.len() > 8 {
+            o.class("more-than-8-delegated-steps");
         }
         let inner = spec.inner && sub_index.is_some();
         if inner {
